@@ -6,7 +6,10 @@ Theorems about the model (Model/TplHelpers.lean) of `List`, `ListOp`, `RangeOp`,
 (`[r₀, [[s₁, r₁], …, [sₖ, rₖ]]]`, see C29_list_shape), and about the README calculator.
 -/
 import GopModel.Model.TplHelpers
+import GopModel.Lemmas.TplCalc
+import GopModel.Lemmas.TplTerm
 import GopModel.Props.C29
+import GopModel.Props.C28
 namespace GopModel.Tpl
 
 variable {α : Type}
@@ -183,6 +186,158 @@ theorem C30_match_result_is_mkList (c : Cx α) (f : Nat) (a b : G) (i n : Nat) (
     simp only [mkList, V.list.injEq, List.cons.injEq, and_true, true_and] at hp
     exact ⟨(s, r) :: pairs, by simp [mkList, hp]⟩
 
+/-! ## the README calculator -/
+
+section Calc
+variable (A : Arith α) (num : Tok → α) (toks : List Tok) (fileEnd : Nat)
+
+theorem evalOperand_leaf (fn : Nat → V α → V α → V α) (f : Nat) (a : α) :
+    evalOperand fn f (.leaf a) = .ok (.leaf a) := rfl
+
+theorem calcFn_mul {p : Nat} {t : Tok} {q : Bool} (ht : toks[p]? = some t)
+    (hk : t.kind = if q then kQUO else kMUL) (a b : α) :
+    calcFn A toks p (.leaf a) (.leaf b) = .leaf (mulOp A q a b) := by
+  cases q <;> simp [calcFn, ht, hk, mulOp, kADD, kSUB, kMUL, kQUO]
+
+theorem calcFn_add {p : Nat} {t : Tok} {s : Bool} (ht : toks[p]? = some t)
+    (hk : t.kind = if s then kSUB else kADD) (a b : α) :
+    calcFn A toks p (.leaf a) (.leaf b) = .leaf (addOp A s a b) := by
+  cases s <;> simp [calcFn, ht, hk, addOp, kADD, kSUB, kMUL, kQUO]
+
+theorem foldOpsR_mulPairs : ∀ (ops : List (Bool × Opd α)) (p : Nat) (acc : α) (rest : List (ATok α)),
+    atFrom num toks p = lexOps mulTok Opd.lex ops ++ rest →
+    foldOpsR (evalOperand (calcFn A toks) 1) (calcFn A toks) (.leaf acc) (mulPairs A p ops) =
+      .ok (.leaf (ops.foldl (fun a q => mulOp A q.1 a (q.2.eval A)) acc)) := by
+  intro ops
+  induction ops with
+  | nil => intro p acc rest _; rfl
+  | cons q ops ih =>
+    intro p acc rest h
+    simp only [lexOps, List.cons_append, List.append_assoc] at h
+    obtain ⟨t, ht, hab, h'⟩ := atFrom_cons num toks h
+    have hk := abstr_kind num hab
+    have hkind : t.kind = if q.1 then kQUO else kMUL := by
+      cases hq : q.1 with
+      | false => simpa using hk.2.2.1 (by simp [mulTok, hq])
+      | true => simpa using hk.2.2.2.1 (by simp [mulTok, hq])
+    simp only [mulPairs, foldOpsR, opAndY, evalOperand_leaf, calcFn_mul A toks ht hkind, List.foldl_cons]
+    exact ih _ _ rest (atFrom_append num toks h')
+
+/-- `BinaryOp(true, …)` on the result of a term folds `*` and `/` left to right. -/
+theorem binaryOpR_termRes (t : Term α) (i : Nat) (rest : List (ATok α))
+    (h : atFrom num toks i = t.lex ++ rest) :
+    evalOperand (calcFn A toks) 2 (termRes A i t) = .ok (.leaf (t.eval A)) := by
+  obtain ⟨o, ops⟩ := t
+  simp only [Term.lex, List.append_assoc] at h
+  simp only [termRes, evalOperand, operandWith]
+  rw [binaryOpR_succ]
+  simp only [evalOperand_leaf]
+  exact foldOpsR_mulPairs A num toks ops _ _ rest (atFrom_append num toks h)
+
+theorem foldOpsR_addPairs : ∀ (ops : List (Bool × Term α)) (p : Nat) (acc : α) (rest : List (ATok α)),
+    atFrom num toks p = lexOps addTok Term.lex ops ++ rest →
+    foldOpsR (evalOperand (calcFn A toks) 2) (calcFn A toks) (.leaf acc) (addPairs A p ops) =
+      .ok (.leaf (ops.foldl (fun a q => addOp A q.1 a (q.2.eval A)) acc)) := by
+  intro ops
+  induction ops with
+  | nil => intro p acc rest _; rfl
+  | cons q ops ih =>
+    intro p acc rest h
+    simp only [lexOps, List.cons_append, List.append_assoc] at h
+    obtain ⟨t, ht, hab, h'⟩ := atFrom_cons num toks h
+    have hk := abstr_kind num hab
+    have hkind : t.kind = if q.1 then kSUB else kADD := by
+      cases hq : q.1 with
+      | false => simpa using hk.1 (by simp [addTok, hq])
+      | true => simpa using hk.2.1 (by simp [addTok, hq])
+    simp only [addPairs, foldOpsR, opAndY, binaryOpR_termRes A num toks q.2 (p + 1) _ h',
+      calcFn_add A toks ht hkind, List.foldl_cons]
+    exact ih _ _ rest (atFrom_append num toks h')
+
+/-- The return procedure of rule `expr` computes the value of the expression. -/
+theorem binaryOpR_exprRes (e : AExpr α) (i : Nat) (rest : List (ATok α))
+    (h : atFrom num toks i = e.lex ++ rest) :
+    binaryOpR (calcFn A toks) 3 [termRes A i e.1, .list (addPairs A (i + e.1.lex.length) e.2)] =
+      .ok (.leaf (e.eval A)) := by
+  obtain ⟨t, ops⟩ := e
+  simp only [AExpr.lex, List.append_assoc] at h
+  rw [binaryOpR_succ]
+  simp only [binaryOpR_termRes A num toks t i _ h]
+  exact foldOpsR_addPairs A num toks ops _ _ rest (atFrom_append num toks h)
+
+/-- Rule `expr` on a lexed expression: consumes it all and returns its value. -/
+theorem evals_calc_expr (e : AExpr α) (rest : List (ATok α))
+    (h : toks.map (abstr num) = e.lex ++ rest) (hrest : NotOp rest) :
+    Evals (calcCx A num toks fileEnd) (.var bExpr) 0 e.lex.length (.leaf (e.eval A)) := by
+  have h0 : atFrom num toks 0 = e.lex ++ rest := by simpa [atFrom] using h
+  have hb := evals_exprBody A num toks fileEnd e 0 rest h0 hrest
+  have hv := evals_var (find_expr A num toks fileEnd) hb
+  have hp : (calcCx A num toks fileEnd).procs bExpr = calcProcs A num toks bExpr := rfl
+  simp only [hp, calcProcs, if_true, exprRes] at hv
+  have hval := binaryOpR_exprRes A num toks e 0 rest h0
+  simp only [Nat.zero_add] at hval hv
+  simpa [hval] using hv
+
+theorem calcEnv_wf : calcEnv.wf = true := by decide
+theorem calcEnv_checked : checkAll calcEnv = .ok := by decide
+
+/-- **Calculator correctness.**  For every arithmetic expression `e` (operands with repeated
+unary minus, `* /` and `+ -` levels) and every token list that spells it (followed by nothing
+or by a token that is not a binary operator, e.g. the automatic `;`), both evaluators consume
+exactly the expression and yield `e.eval`: the precedence-climbing reference, and the README
+calculator grammar with its `BinaryOp(true, …)` return procedures run by the matcher with the
+fuel of C28. -/
+theorem C30_calc_correct (e : AExpr α) (rest : List (ATok α))
+    (h : toks.map (abstr num) = e.lex ++ rest) (hrest : NotOp rest) :
+    pcExpr A (3 * toks.length + 3) 1 (toks.map (abstr num)) = some (e.eval A, rest) ∧
+    (matchTop (calcCx A num toks fileEnd) (matchBound calcEnv toks.length) bExpr).res =
+      .ok e.lex.length (.leaf (e.eval A)) := by
+  constructor
+  · rw [h]
+    apply pcExpr_expr A e rest hrest
+    have : toks.length = (e.lex ++ rest).length := by rw [← h]; simp
+    simp only [List.length_append] at this
+    omega
+  · have hev := evals_calc_expr A num toks fileEnd e rest h hrest
+    have hne := C28_match_terminates (calcCx A num toks fileEnd) calcEnv_wf calcEnv_checked bExpr
+    exact hev.at_fuel _ hne
+
+theorem parseExprTop_ok (c : Cx α) (fuel : Nat) (doc : Bytes) (n : Nat) (r : V α)
+    (hm : (matchTop c fuel doc).res = .ok n r)
+    (hend : ∀ t, c.toks[n]? = some t → t.kind = tokSEMICOLON ∨ t.kind = tokEOF) :
+    parseExprTop c fuel doc = .ok r := by
+  unfold parseExprTop
+  simp only [hm]
+  cases ht : c.toks[n]? with
+  | none => rfl
+  | some t => simp [hend t ht]
+
+/-- `ParseExpr` of the calculator returns the value when the expression is the whole input
+(or is followed by `;`). -/
+theorem C30_calc_parseExpr (e : AExpr α) (rest : List (ATok α))
+    (h : toks.map (abstr num) = e.lex ++ rest)
+    (hend : ∀ t, toks[e.lex.length]? = some t → t.kind = tokSEMICOLON ∨ t.kind = tokEOF) :
+    calcParseExpr A num toks fileEnd = .ok (.leaf (e.eval A)) := by
+  have hrest : NotOp rest := by
+    intro a ha
+    cases hr : rest with
+    | nil => rw [hr] at ha; cases ha
+    | cons b r =>
+      rw [hr] at ha h
+      simp only [List.head?_cons, Option.some.injEq] at ha
+      subst ha
+      have h0 : atFrom num toks 0 = e.lex ++ b :: r := by simpa [atFrom] using h
+      obtain ⟨t, ht, hab, _⟩ := atFrom_cons num toks (atFrom_append num toks h0)
+      simp only [Nat.zero_add] at ht
+      have hk := hend t ht
+      subst hab
+      unfold abstr
+      rcases hk with hk | hk <;> simp [hk, tokSEMICOLON, tokEOF, kINT, kFLOAT, kADD, kSUB, kMUL, kQUO, ATok.prec]
+  have hm := (C30_calc_correct A num toks fileEnd e rest h hrest).2
+  exact parseExprTop_ok _ _ _ _ _ hm hend
+
+end Calc
+
 /-! Non-vacuity -/
 example : listOf (mkList (.tok 0) [(.tok 1, .tok 2), (.tok 3, .tok 4)] : List (V Nat)) matches
     .ok [.tok 0, .tok 2, .tok 4] := by decide
@@ -193,5 +348,21 @@ example : binaryOpNR (fun o x y => .list [.tok o, x, y]) ([.leaf 1] : List (V Na
 example : binaryExprNR (mkList (.leaf (.atom 1)) (opPairs [(7, .leaf (.atom 2))])) matches
     .ok (.bin (.atom 1) 7 (.atom 2)) := by decide
 example : binaryExprNR (mkList (.tok 1) []) matches .panic := by decide
+
+/-- README: `1 + 2 * -3` evaluates to `-5` (tokens as the real scanner yields them, with the
+automatic `;`). -/
+def exToks : List Tok :=
+  [⟨kINT, [0x31], 1, 2⟩, ⟨kADD, [], 3, 4⟩, ⟨kINT, [0x32], 5, 6⟩, ⟨kMUL, [], 7, 8⟩, ⟨kSUB, [], 9, 10⟩,
+   ⟨kINT, [0x33], 10, 11⟩, ⟨tokSEMICOLON, [0x0a], 11, 12⟩]
+def exArith : Arith Int := ⟨(· + ·), (· - ·), (· * ·), (· / ·), (- ·)⟩
+def exNum (t : Tok) : Int := match t.lit with | [b] => (b.toNat : Int) - 48 | _ => 0
+example : calcParseExpr exArith exNum exToks 11 matches .ok (.leaf (-5)) := by decide
+/-- the same through the theorem: the hypotheses of `C30_calc_parseExpr` are satisfiable -/
+example : calcParseExpr exArith exNum exToks 11 = .ok (.leaf (-5)) :=
+  C30_calc_parseExpr exArith exNum exToks 11
+    ((.num 1, []), [(false, (.num 2, [(false, .neg (.num 3))]))]) [.other] (by rfl)
+    (fun t ht => by
+      simp [exToks, AExpr.lex, Term.lex, Opd.lex, lexOps] at ht
+      subst ht; left; rfl)
 
 end GopModel.Tpl
